@@ -721,6 +721,16 @@ def directed_scenarios(base_id):
                                        {"op": "getmany", "parts": [], "timeout_ms": 500, "max_records": 50},
                                        {"op": "position", "p": 0}]], "drain": 20.0})
                 k += 1
+    # 7. the same overlapping transactions fetched with every older Fetch version that carries an aborted-
+    #    transaction index (v4: no log start offset; v5-v10: log start offset before the index; v11 is the default)
+    proto = [sc for sc in out if sc["id"] >= base_id + 19][:6:2]
+    for ver in (4, 5, 7, 10):
+        for sc0 in proto:
+            sc = json.loads(json.dumps(sc0))
+            sc["id"] = k
+            sc["api_ranges"] = {"1": [0, ver]}
+            out.append(sc)
+            k += 1
     for sc in out:
         sc.setdefault("faults", {})
     return out
